@@ -68,6 +68,9 @@ class Census:
         if API is None:
             API = ApiClass()
         local_crate = m.data.get("crate")
+        from .. import scope as _scope
+
+        self.scope = _scope.in_scope(m)
         self.sites = []  # dict(fn=e1key|None, mir=path, kind, what, macros, line, ord)
         counts = {}
         for p in sorted(m.bodies):
@@ -96,7 +99,7 @@ class Census:
     def _add(self, counts, fn, p, kind, what, node, operands=None):
         key = (fn or p, kind, what)
         counts[key] = counts.get(key, 0) + 1
-        self.sites.append(dict(fn=fn, mir=p, kind=kind, what=what, macros=node["macros"], line=node["line"], file=node["file"], ord=counts[key], operands=operands))
+        self.sites.append(dict(fn=fn, mir=p, kind=kind, what=what, macros=node["macros"], line=node["line"], file=node["file"], ord=counts[key], operands=operands, in_scope=p in self.scope))
 
 
 FINITE_SOURCES = re.compile(
@@ -174,7 +177,7 @@ def run(c, facts, tier):
             seen.add(key)
             total += 1
             ok, form, det = D.discharge(s)
-            c.ob("C03." + form, site, inst, ok, "%s [%s, %s:%s]" % (det, cname, s["file"].split("/src/")[-1], s["line"]), witness=D.witness(s, form) if ok is not True else None, nontrivial=form not in ("ub-check", "dependency-generated", "derive-generated"))
+            c.ob("C03." + form, site, inst, ok, "%s [%s, %s:%s]" % (det, cname, s["file"].split("/src/")[-1], s["line"]), witness=D.witness(s, form) if ok is not True else None, nontrivial=form not in ("ub-check", "dependency-generated", "derive-generated", "out-of-scope"))
     c.analysed["panic_capable_sites"] = total
     c.floor("panic-capable sites in the census", total, 20)
     # ------------------------------------------------------------ progress / termination
@@ -190,6 +193,14 @@ def run(c, facts, tier):
         derives = facts.derives(e)
         tmpl_ok = all(any(a.startswith("error(") for a in v["attrs"]) for v in e["variants"])
         manual = [i for _, _, i in facts.impls if norm_ty(i["self_ty"]) == en and i["trait"] and norm_ty(i["trait"]).split("::")[-1] == "Display"]
+        if manual and not tmpl_ok:
+            # a hand-written Display: its panic-capable sites are in the census above (rendering impls are roots of the scope);
+            # what is left is that it fails only when the formatter does — it never makes up an `Err(fmt::Error)` of its own
+            # (`to_string()` panics on one).  Examined in the impl and in every function that takes a formatter.
+            fmt_fns = [f_ for f_ in facts.nontest_fns() if (f_.impl is not None and f_.impl.get("trait") and norm_ty(f_.impl["trait"]).split("::")[-1] == "Display" and norm_ty(f_.impl["self_ty"]) == en) or any("Formatter" in (t_ or "") for _, t_ in f_.params)]
+            own_err = [f_.key for f_ in fmt_fns if find_all(f_.body, lambda n: (n.get("k") == "call" and n["f"].get("k") == "path" and n["f"]["segs"][-1] == "Err") or (n.get("k") in ("path", "struct") and n.get("segs") and n["segs"][-1] == "Error" and len(n["segs"]) >= 2 and n["segs"][-2] == "fmt"))]
+            c.ob("C03.render", en, "hand-written Display fails only when the formatter fails", "Error" in derives and len(manual) == 1 and not own_err, "derives %s; hand-written Display impls: %d; functions writing to a formatter that construct an error of their own: %s" % (derives, len(manual), own_err))
+            continue
         c.ob("C03.render", en, "Display is derived from #[error] templates", "Error" in derives and tmpl_ok and not manual, "derives %s; every variant has a template: %s; hand-written Display impls: %d" % (derives, tmpl_ok, len(manual)), nontrivial=False)
     # positive control: an undischarged fixture site
     ok, form, det = D.discharge(dict(fn="fixture::f", mir="fixture::f", kind="call", what="Option::<T>::unwrap", macros=[], line=0, file="", ord=1, operands=None))
@@ -220,6 +231,8 @@ class Discharger:
     def discharge(self, s):
         fn, what, kind = s["fn"], s["what"], s["kind"]
         macros = s["macros"]
+        if s.get("in_scope") is False:
+            return True, "out-of-scope", "%s is reachable from none of parse, compile, scheme, io_map, the tree helpers or a rendering/conversion impl (vlib/scope.py): the property does not speak of it" % (fn or s["mir"])
         if kind == "assert" and what in UB_CHECKS:
             return True, "ub-check", "compiler-inserted %s check (debug builds) in %s expansion on a freshly created value" % (what, macros[-1:] or "a raw-pointer write")
         if any(mc.startswith("bitflags!") or "bitflags" in mc for mc in macros) and (fn is None):
@@ -432,8 +445,20 @@ class Discharger:
                     dets.append("%s[%d] where %s.len() ≥ %d" % (name, k, name, least))
                     break
             if not ok_here:
+                # NAME is what a repetition with a lower bound above k collected (`repeat_till(1.., ..)`), and is not shortened
+                try:
+                    bnd = self.g.bindings(self.b.fn_ir(f.key))
+                except F.AnchorMissing:
+                    bnd = {}
+                p = bnd.get(name)
+                while p is not None and p["t"] in ("map", "ctx", "cut"):
+                    p = p["p"]
+                if p is not None and p["t"] in ("reptill", "rep", "sep") and p["min"] > k and not find_all(f.body, lambda n: n.get("k") == "mcall" and n["m"] in SHORTEN and rx.var_name(rx.peel(n["recv"])) == name):
+                    ok_here = True
+                    dets.append("%s[%d] where %s is the result of %s with lower bound %d" % (name, k, name, p["t"], p["min"]))
+            if not ok_here:
                 return None
-        return True, "len-arm", "every indexing stands under a length test that covers it: %s" % "; ".join(dets)
+        return True, "len-arm", "every indexing stands under a length test or a repetition bound that covers it: %s" % "; ".join(dets)
 
     def _length_guarded_regions(self, body, name):
         """[(region, least length established there)] for the tests on `name.len()` in `body`"""
@@ -1409,10 +1434,15 @@ def progress(c, facts, b, g, mfacts):
     c.floor("repetition sites", n, 5)
     loops, finite = [], []
     n_for_e1 = 0
+    from .. import scope as _scope
+
     for fn in facts.nontest_fns():
         for x in find_all(fn.body, lambda x: x.get("k") in ("loop", "while", "for")):
             if x["k"] == "for":
                 n_for_e1 += 1
+                continue
+            if not _scope.fn_in_scope(mfacts, facts, fn.key):
+                finite.append("%s: %s loop in a function none of the steps the property speaks of can reach" % (fn.key, x["k"]))
                 continue
             # a `while let Some(v) = opt(STEP).parse_next(input)? { acc = .. }` that the IR reads as a repetition of STEP:
             # every round consumes at least one symbol of a finite input when STEP is not nullable (the same premise as for
